@@ -16,6 +16,9 @@ CONSTANTS
   FocusPre <- PreFocus
   FocusItems <- ItemsFocus
   FocusMax = 4
+  FocusDeepNames <- NoNames
+  FocusDeepMax = 6
+  FocusDeepItems <- ItemsFocusDeep
   FixO1 = TRUE
   FixRetry = TRUE
   FixRetryList = TRUE
